@@ -296,6 +296,16 @@ pub fn run_history_property<H: HB>(prop: &'static str, tier: Tier) -> Outcome {
             out.machinery_errors.push(format!("cross-engine count: E1 found {e1_states} unique states, the naive explorer {naive_states}"));
         }
     }
+    if q && matches!(prop, "C01" | "C02" | "C11") {
+        // a fourth item with two priorities (the thorough tier closes 4 x 3)
+        let mut cfg4 = base_cfg(prop, 4, &[0, 1], alpha);
+        cfg4.kinds = kinds.clone();
+        cfg4.root_vec_len = 2;
+        run_closed::<H>(&mut out, "E1 closed (4 items x 2 priorities)", &cfg4, &no_probes);
+        if !out.violations.is_empty() {
+            return out;
+        }
+    }
     if matches!(prop, "C01" | "C02" | "C04") {
         // extreme values: same closure over {MIN, 0, MAX}
         let mut cfg2 = base_cfg(prop, if q { 2 } else { 3 }, &EXTREMES, alpha & !(A_RETAIN_MUT));
@@ -359,6 +369,7 @@ pub fn run_probe_property<H: HB>(prop: &'static str, tier: Tier) -> Outcome {
     let (k, m) = match (prop, q) {
         ("C16", true) => (2, 3),
         ("C16", false) => (3, 2),
+        ("C13", true) => (4, 2),
         (_, true) => (3, 3),
         (_, false) => (4, 3),
     };
@@ -735,15 +746,29 @@ pub fn run_c08<H: HB>(tier: Tier) -> Outcome {
     let alpha = A_REACH | A_RETAIN | A_RETAIN_MUT | A_ITER_MUT | A_ITER_MUT_BACK | A_POP_IF;
     let cfg = base_cfg(prop, k, &prios, alpha);
     let universe = cfg.universe();
-    let pname = if q { "C08" } else { "C08t" };
+    let pname = "C08t";
     let mk = |ex: &mut Explorer<H>| {
         for p in crate::probes::all_probes::<H>(pname, &universe) {
             ex.probes.push(p);
         }
     };
-    run_closed::<H>(&mut out, &format!("E1 closed ({k} items x {m} priorities): retain/retain_mut/iter_mut/pop_if transitions + every prefix x write pattern from every state"), &cfg, &mk);
+    run_closed::<H>(&mut out, &format!("E1 closed ({k} items x {m} priorities): retain/retain_mut/iter_mut/pop_if transitions + every prefix x write pattern x every rewrite table from every state"), &cfg, &mk);
     if !out.violations.is_empty() {
         return out;
+    }
+    if q {
+        let mut cfg4 = base_cfg(prop, 4, &[0, 1], alpha);
+        cfg4.root_vec_len = 2;
+        let uni4 = cfg4.universe();
+        let mk4 = |ex: &mut Explorer<H>| {
+            for p in crate::probes::all_probes::<H>("C08", &uni4) {
+                ex.probes.push(p);
+            }
+        };
+        run_closed::<H>(&mut out, "E1 closed (4 items x 2 priorities) + every prefix x write pattern from every state", &cfg4, &mk4);
+        if !out.violations.is_empty() {
+            return out;
+        }
     }
     for n in if q { vec![6usize, 7, 8] } else { vec![6, 7, 8, 9, 16, 17] } {
         let mut c = seeds_cfg(prop, n, &REL_BIN, alpha & !A_REACH | A_POP);
@@ -762,10 +787,11 @@ pub fn run_c14<H: HB>(tier: Tier) -> Outcome {
     let mut out = Outcome::new();
     let q = tier == Tier::Quick;
     let th = threads();
-    let (k, m) = if q { (3u32, 3i32) } else { (4, 2) };
+    let (k, m) = if q { (4u32, 2i32) } else { (4, 3) };
     let prios: Vec<i32> = (0..m).collect();
     let t0 = Instant::now();
-    let mut cfg = base_cfg(prop, k, &prios, A_REACH | A_CLONE | A_CAPACITY);
+    let mut cfg = base_cfg(prop, k, &prios, A_REACH | A_CLONE | A_CAPACITY | A_RETAIN | A_ITER_MUT);
+    cfg.root_vec_len = if q { 2 } else { 1 };
     cfg.deep = false;
     cfg.merge_check |= !q;
     let universe = cfg.universe();
@@ -978,6 +1004,7 @@ pub fn run_c18(tier: Tier) -> Outcome {
     let mut out = Outcome::new();
     let q = tier == Tier::Quick;
     let (k, m) = if q { (3u32, 2i32) } else { (3, 3) };
+    let _ = q;
     let prios: Vec<i32> = (0..m).collect();
     let alpha = A_CORE | A_BULK | A_CLONE | A_BORROWED | A_PAYLOAD;
     let cfg = base_cfg(prop, k, &prios, alpha);
